@@ -28,6 +28,17 @@ def run(ctx):
     games += posgen.all_moves_games(model, posgen.filter_valid(model, posgen.combo_positions(ctx.rng, 40 if q else 400)))
     ctx.notes['king_ray_template_positions'] = len(pins)
     nobs, nviol = diff_games(ctx, "g_legal", games, "legal move list differs from the rules", impl, model)
+    # make / unmake / null-move scripts on ONE Position object, the observer called after EVERY step (caches and lazily updated members
+    # must follow the object through every kind of step): compared with the model's value for the position represented
+    wroots = [g_[0] for g_ in games][: (150 if q else 2500)]
+    wl = ["walkgen %d %d %d %s" % (ctx.rng.randrange(1 << 30), 40 if q else 100, ctx.rng.choice([3, 6]), f_) for f_ in wroots]
+    rcw, wscripts, ew = run_lines(model, wl, shards=NPROC)
+    wgames = [(f_, (s_ or "").split()) for f_, s_ in zip(wroots, wscripts) if s_]
+    nw, vw = diff_games(ctx, "walk_legal", wgames, "legal move list after a make / unmake / null-move script on one object differs from the rules", impl, model)
+    nw2, vw2 = diff_games(ctx, "walk_legal_do", wgames, "the same, observed only after made moves (not after unmake: the way a search asks)", impl, model)
+    vw += vw2
+    ctx.notes["walk_script_observations"] = nw + nw2
+    nviol += vw
     # the same through the real entry point: `position fen F` + `perft 1` on the engine binary (what a user sees), and the search
     # root / SAN consumers are covered by C05 / C17
     import uciglue
